@@ -33,6 +33,7 @@ fn field_ty(t: &Type) -> &'static str {
 }
 
 struct SigFact {
+  has_drop: bool,
   name: String,
   recv: &'static str,
   borrow: &'static str,
@@ -129,6 +130,19 @@ pub fn facts(files: &[(String, File)]) -> (String, String) {
   let mut deleg: BTreeMap<String, &'static str> = BTreeMap::new();
   let mut alloc_sites: Vec<(String, String)> = vec![];
   let mut macro_eq_body = String::new();
+  let mut drop_types: BTreeSet<String> = BTreeSet::new();
+  for (_, f) in files {
+    for it in &f.items {
+      if let Item::Impl(im) = it {
+        if let Some((_, p, _)) = &im.trait_ {
+          if p.segments.last().map(|x| x.ident == "Drop").unwrap_or(false) {
+            let t = norm(&im.self_ty);
+            drop_types.insert(t.split('<').next().unwrap_or("").to_string());
+          }
+        }
+      }
+    }
+  }
 
   for (_, f) in files {
     for it in &f.items {
@@ -202,7 +216,10 @@ pub fn facts(files: &[(String, File)]) -> (String, String) {
                         Some(_) => "owned",
                         None => "none",
                       };
+                      let rt = norm(&m.sig.output);
+                      let has_drop = drop_types.iter().any(|t| t != "MiniVec" && !t.is_empty() && (rt.contains(&format!("{}<", t)) || rt.ends_with(t.as_str())));
                       sigs.push(SigFact {
+                        has_drop,
                         name: m.sig.ident.to_string(),
                         recv,
                         borrow,
@@ -270,6 +287,7 @@ pub fn facts(files: &[(String, File)]) -> (String, String) {
     ("borrow", "Borrow", Box::new(|s: &SigFact| format!(".{}", s.borrow))),
     ("elemOutlives", "Bool", Box::new(|s: &SigFact| s.outlives_bound.to_string())),
     ("isUnsafe", "Bool", Box::new(|s: &SigFact| s.is_unsafe.to_string())),
+    ("resultHasDrop", "Bool", Box::new(|s: &SigFact| s.has_drop.to_string())),
   ] {
     l.push_str(&format!("def {} : Api → {}\n", fname, ty));
     for s in &sigs {
@@ -277,6 +295,11 @@ pub fn facts(files: &[(String, File)]) -> (String, String) {
     }
     l.push('\n');
   }
+  l.push_str("/-- for the command-line driver only (no theorem mentions strings) -/\ndef apiOfName (s : String) : Option Api :=\n  match s with\n");
+  for s in &sigs {
+    l.push_str(&format!("  | \"{}\" => some .{}\n", s.name, lean_ident(&s.name)));
+  }
+  l.push_str("  | _ => none\n\n");
   l.push_str("/-- bound on `T` of an `unsafe impl Send/Sync` -/\ninductive AutoBound | send | sync | unbounded | otherBound | absent\n  deriving DecidableEq, Repr\n\n");
   for ty in ["MiniVec", "IntoIter", "Drain", "Splice", "DrainFilter"] {
     for tr in ["Send", "Sync"] {
